@@ -38,11 +38,26 @@ func addAccount(idx *AccountIndex, seen map[string]bool, name string) {
 func addAccountToIndex(idx *AccountIndex, name string) {
 	idx.All = append(idx.All, name)
 
-	parts := strings.Split(name, ":")
-	for i := 1; i < len(parts); i++ {
-		prefix := strings.Join(parts[:i], ":") + ":"
+	for _, prefix := range AccountPrefixes(name) {
 		idx.ByPrefix[prefix] = append(idx.ByPrefix[prefix], name)
 	}
+}
+
+// maxIndexedAccountDepth bounds how many parents of one account get an entry
+// in the by-prefix index: every entry is keyed by the whole prefix, so an
+// absurd "a:a:a:..." name of n segments would otherwise cost n^2 work.
+const maxIndexedAccountDepth = 64
+
+// AccountPrefixes returns the parent prefixes of an account ("a:", "a:b:" for
+// "a:b:c"), as slices of name, nearest the root first.
+func AccountPrefixes(name string) []string {
+	var prefixes []string
+	for i := 0; i < len(name) && len(prefixes) < maxIndexedAccountDepth; i++ {
+		if name[i] == ':' {
+			prefixes = append(prefixes, name[:i+1])
+		}
+	}
+	return prefixes
 }
 
 func CollectPayees(journal *ast.Journal) []string {
